@@ -26,7 +26,8 @@ vars == <<l, W, seq, g>>
 (*   3: scenario id -> result of the branch with the fewest violations       *)
 (* so that all branches of a scenario converge again at its "end" line.      *)
 
-G0 == [id |-> "", fam |-> "", maxq |-> 16384, defcap |-> 0, gbad |-> <<>>, ifds |-> 0, gor |-> 0, start |-> 0, infra |-> <<>>, events |-> 0]
+G0 == [id |-> "", fam |-> "", maxq |-> 16384, defcap |-> 0, gbad |-> <<>>, ifds |-> 0, gor |-> 0, start |-> 0, infra |-> <<>>, events |-> 0,
+       lastobs |-> [nwd |-> -1, npath |-> -1, nmarks |-> -1, paths |-> {}], drift |-> <<>>]
 
 Init == /\ l = 1 /\ W = EmptyFn /\ seq = 0 /\ g = G0
         /\ TLCSet(1, 1) /\ TLCSet(3, EmptyFn)
@@ -60,7 +61,7 @@ Flush(id) ==
 End == /\ IsKind("end")
        /\ LET mine == [viol |-> Flush(Line.id), tags |-> UNION {W[w].nontriv : w \in DOMAIN W},
                        fog |-> \E w \in DOMAIN W : W[w].fog, records |-> seq, events |-> g.events,
-                       infra |-> g.infra, lines |-> l - g.start + 1]
+                       infra |-> g.infra, lines |-> l - g.start + 1, drift |-> g.drift]
               cur  == TLCGet(3)
           IN TLCSet(3, IF Line.id \in DOMAIN cur /\ Len(cur[Line.id].viol) <= Len(mine.viol) THEN cur ELSE (Line.id :> mine) @@ cur)
        /\ W' = EmptyFn /\ seq' = 0 /\ g' = G0 /\ Next1
@@ -181,7 +182,9 @@ Obs == /\ IsKind("obs")
        /\ IF Line.w \in DOMAIN W
           THEN W' = [W EXCEPT ![Line.w] = ObsW(@, Line)]
           ELSE W' = W
-       /\ g' = LET g1 == [g EXCEPT !.ifds = Line.ifds, !.gor = Line.gor]
+       /\ g' = LET g1 == [g EXCEPT !.ifds = Line.ifds, !.gor = Line.gor,
+                                     !.lastobs = [nwd |-> Line.nwd, npath |-> Line.npath, nmarks |-> Len(Line.marks),
+                                                  paths |-> {Line.paths[i][Len(Line.paths[i])] : i \in 1..Len(Line.paths)}]]
                    alive == {w \in DOMAIN W' : ~(W'[w].phase = "closed" /\ W'[w].evc /\ W'[w].errc)} IN
                IF ~Line.q THEN [g1 EXCEPT !.infra = Append(@, "not quiescent at obs")]
                ELSE IF Line.pending = <<>> /\ Line.ifds > Cardinality(alive)
@@ -190,6 +193,15 @@ Obs == /\ IsKind("obs")
                THEN [g1 EXCEPT !.gbad = Append(@, [props |-> {"C13"}, cause |-> "leak:goroutine"])]
                ELSE g1
        /\ UNCHANGED seq /\ Next1
+
+\* ---- spec -> code: the state the code-shaped model (InotifyTables, via MC_WatchSetGen) predicted for the observation
+\* just made.  A difference means the model no longer describes the code: MODEL-DRIFT, not a verdict on a property.
+Model == /\ IsKind("model")
+         /\ g' = LET o == g.lastobs
+                     same == o.nwd = Line.nwd /\ o.npath = Line.npath /\ o.nmarks = Line.nmarks
+                             /\ o.paths = {Line.wl[i] : i \in 1..Len(Line.wl)} IN
+                 IF same THEN g ELSE [g EXCEPT !.drift = Append(@, [model |-> [nwd |-> Line.nwd, npath |-> Line.npath, nmarks |-> Line.nmarks], observed |-> [nwd |-> o.nwd, npath |-> o.npath, nmarks |-> o.nmarks]])]
+         /\ UNCHANGED <<W, seq>> /\ Next1
 
 \* ---- the worker process died inside this scenario ---------------------------
 Crash == /\ IsKind("crash")
@@ -200,7 +212,7 @@ Other == /\ l <= Len(Trace) /\ Line.k \in {"recurse", "bad"}
          /\ g' = IF Line.k = "bad" THEN Infra("bad step") ELSE g
          /\ UNCHANGED <<W, seq>> /\ Next1
 
-Next == (Reset \/ End \/ New \/ Fs \/ Call \/ JoinT \/ Recv \/ Drain \/ Obs \/ Crash \/ Other)
+Next == (Reset \/ End \/ New \/ Fs \/ Call \/ JoinT \/ Recv \/ Drain \/ Obs \/ Model \/ Crash \/ Other)
         /\ TLCSet(1, IF TLCGet(1) > l' THEN TLCGet(1) ELSE l')
 
 Spec == Init /\ [][Next]_vars
